@@ -425,8 +425,15 @@ func c12TraceString(fn *types.Func, tr []*Sym, st *State, in *Interp) string {
 				}
 				sort.Strings(bl)
 				head := "?" + s.Key
+				// an index loop bounded by len(<codecs>) is keyed "lin(0 + len(pN))"
+				lk := s.Key
+				if strings.HasPrefix(lk, "lin(0 + len(") && strings.HasSuffix(lk, "))") {
+					lk = strings.TrimSuffix(strings.TrimPrefix(lk, "lin(0 + len("), "))")
+				} else if strings.HasPrefix(lk, "len(") && strings.HasSuffix(lk, ")") {
+					lk = strings.TrimSuffix(strings.TrimPrefix(lk, "len("), ")")
+				}
 				switch {
-				case fields[s.Key]:
+				case fields[s.Key] || fields[lk]:
 					head = "fields"
 				case len(out) > 0 && countOp != nil:
 					cnt := out[len(out)-1]
